@@ -249,6 +249,32 @@ def lsp_session(text, uri=URI):
     ]
 
 
+def lsp_session_two_documents(text):
+    """two documents, interleaved didChange notifications (ranged and full), diagnostics announced: what is published must not
+    depend on which frames happen to arrive in the same read"""
+    ua, ub = "file:///a.spl", "file:///b.spl"
+    full = lambda u, v, s: note("textDocument/didChange", {"textDocument": {"uri": u, "version": v}, "contentChanges": [{"text": s}]})
+    ins = lambda u, v, s: note("textDocument/didChange", {"textDocument": {"uri": u, "version": v}, "contentChanges": [
+        {"range": {"start": {"line": 0, "character": 0}, "end": {"line": 0, "character": 0}}, "text": s}]})
+    return [
+        req(1, "initialize", {"processId": None, "rootUri": None, "capabilities": {"textDocument": {"publishDiagnostics": {}}}}),
+        note("initialized", {}),
+        note("textDocument/didOpen", {"textDocument": {"uri": ua, "languageId": "spl", "version": 1, "text": text}}),
+        note("textDocument/didOpen", {"textDocument": {"uri": ub, "languageId": "spl", "version": 1, "text": "proc main() { }\n"}}),
+        full(ua, 2, "proc main() { x := 1; }\n"),
+        full(ub, 2, "proc main() { y := '\u00e9'; }\n"),
+        ins(ua, 3, "// \u4e16\n"),
+        ins(ua, 4, "type t = int;\n"),
+        ins(ub, 3, "type y = int;\n"),
+        req(2, "$/verif/text", {"uri": ua}),
+        full(ub, 4, text),
+        full(ua, 5, "proc main() { var x: int; x := 1; }\n"),
+        req(3, "$/verif/text", {"uri": ub}),
+        req(4, "shutdown"),
+        note("exit"),
+    ]
+
+
 def random_text(rng, n):
     pool = ["proc ", "main", "() {", "}\n", " ", "\u00e9", "\u00fc\u00df", "\u4e16\u754c", "\U0001F600", "// ", "x := 1;", "\n", "\"", "\\", "'a'", "\t"]
     s = ""
@@ -743,6 +769,15 @@ def binary_level(ctx, exe):
         frames = [lspclient.frame(m) for m in lsp_session(t)]
         data = b"".join(frames)
         sessions.append((t, data))
+        cuts, pos = [], 0
+        for f in frames[:-1]:
+            pos += len(f)
+            cuts.append(pos)
+        frame_cuts[len(sessions) - 1] = cuts
+    for t in TEXTS[:2 if ctx.thorough() else 1]:
+        frames = [lspclient.frame(m) for m in lsp_session_two_documents(t)]
+        data = b"".join(frames)
+        sessions.append(("two documents: " + t, data))
         cuts, pos = [], 0
         for f in frames[:-1]:
             pos += len(f)
